@@ -1,4 +1,153 @@
-import Gp.Model.Layers.Ip6Ser
+import Gp.Lemmas.Layers.Ip6Idem
+/-
+  C07 (layer part `lip6`) — SerializeTo of the ip6.go layers never panics; the bytes depend only on
+  the layer, the payload (= buffer contents) and FixLengths; repeating gives the same bytes.
+  (ComputeChecksums is not read by any of these serializers: the model has no such parameter.)
+
+  Buffers are quantified through the C18 model: ANY `b` with the representation invariant `Inv`
+  (every buffer reachable from a constructor by any history of prepends/appends/clears, theorem
+  `Gp.C18.inv_run`), so capacity, stale bytes and clear history are arbitrary.
+  `BufEq b1 b2` = both invariant, equal contents, equal recorded layers.
+  `SameOut r1 r2` = both fail with the same error, or both succeed with `BufEq` buffers and equal
+  mutated layers.
+
+  Model of the code WITH fixes lip6-3 (SetJumboLength on short OptionData no longer panics) and
+  lip6-7; unfixed code: monitor `lip6:ser-panic:layers/ip6.go:546`.
+
+  Known finding (kept as `_full` + `_counterexample` + `_partial`): a hop-by-hop/destination option
+  whose OptionLength exceeds len(OptionData) serialised WITHOUT FixLengths, and a routing header
+  with < 4 Reserved bytes or an address of a length other than 4/16, leave requested bytes
+  unwritten (stale buffer bytes leak).  No decoder produces such layers.
+-/
 namespace Gp.C07.Ip6
-open Gp Gp.Ip6
+open Gp Gp.Ip6 Gp.SBuf Gp.C18
+
+/-! ## 1. serialize_total: no panic for EVERY value of the public fields -/
+
+theorem serialize_total (l : IPv6) (b : SBuf) (fix : Bool) (h : Inv b) (k : PanicKind) :
+    serializeIPv6 l b fix ≠ .panic k := serializeIPv6_ne_panic l b fix h k
+
+theorem serialize_ext_total (e : TlvExt) (b : SBuf) (fix : Bool) (h : Inv b) (k : PanicKind) :
+    serializeTlvExt e b fix ≠ .panic k := serializeTlvExt_ne_panic e b fix h k
+
+theorem serialize_routing_total (r : Routing) (b : SBuf) (h : Inv b) (k : PanicKind) :
+    serializeRouting r b ≠ .panic k := serializeRouting_ne_panic r b h k
+
+theorem serialize_fragment_total (f : Fragment) (b : SBuf) (h : Inv b) (k : PanicKind) :
+    serializeFragment f b ≠ .panic k := by
+  rw [serializeFragment_eq f b h]; simp
+
+/-- Non-vacuity: an invariant buffer holding a payload after a dirty history. -/
+example : Inv (step (clear (step (new 0 0) (.prepend [9, 9, 9, 9]))) (.prepend [1, 2, 3])) :=
+  inv_step' _ _ (inv_clear' _ (inv_step' _ _ (inv_new' 0 0)))
+
+/-! ## 2. serialize_buffer_independent -/
+
+/-- IPv6Fragment: full strength. -/
+theorem serialize_fragment_buffer_independent (f : Fragment) (b1 b2 : SBuf) (h : BufEq b1 b2) :
+    SameBuf (serializeFragment f b1) (serializeFragment f b2) := by
+  rw [serializeFragment_eq f b1 h.1, serializeFragment_eq f b2 h.2.1]
+  exact bufEq_prepend _ _ _ h
+
+/-- Full statement for the TLV extension headers (FALSE for the code, see the counterexample). -/
+def serialize_ext_buffer_independent_full : Prop :=
+  ∀ (e : TlvExt) (b1 b2 : SBuf) (fix : Bool), BufEq b1 b2 →
+    SameOut (serializeTlvExt e b1 fix) (serializeTlvExt e b2 fix)
+
+/-- Proved part: every option's data is at least as long as its length field (`GapFree`: always
+    the case with FixLengths and for every decoded option) and alignments are uint8. -/
+theorem serialize_ext_buffer_independent_partial (e : TlvExt) (b1 b2 : SBuf) (fix : Bool)
+    (h : BufEq b1 b2) (hg : GapFree fix e.options) (hr : AlignInRange e.options) :
+    SameOut (serializeTlvExt e b1 fix) (serializeTlvExt e b2 fix) :=
+  serializeTlvExt_sameOut e b1 b2 fix h hg hr
+
+/-- With FixLengths the gap-freeness hypothesis is automatic. -/
+theorem gapFree_of_fix (os : List Tlv) : GapFree true os := by
+  intro o _ ht
+  unfold fixOpt
+  rw [if_neg ht]
+  exact Nat.mod_le _ _
+
+def leakOpt : Tlv := { typ := 5, len := 4, alen := 6, data := some [1], ax := 0, ay := 0 }
+def leakExt : TlvExt := { base := { ExtBase.zero with nextHeader := 59 }, options := [leakOpt] }
+def dirtyBuf : SBuf := clear (step (new 0 0) (.prepend [9, 9, 9, 9, 9, 9, 9, 9, 9, 9]))
+
+theorem serialize_ext_buffer_independent_counterexample : ¬ serialize_ext_buffer_independent_full := by
+  intro h
+  have hb : BufEq (new 0 0) dirtyBuf :=
+    ⟨inv_new' 0 0, inv_clear' _ (inv_step' _ _ (inv_new' 0 0)), by decide, by decide⟩
+  have := h leakExt (new 0 0) dirtyBuf false hb
+  have e1 : serializeTlvExt leakExt (new 0 0) false =
+      .ok (step (step (new 0 0) (.prepend [5, 4, 1, 0, 0, 0])) (.prepend [59, 0]), leakExt) := by decide
+  have e2 : serializeTlvExt leakExt dirtyBuf false =
+      .ok (step (step dirtyBuf (.prepend [5, 4, 1, 9, 9, 9])) (.prepend [59, 0]), leakExt) := by decide
+  rw [e1, e2] at this
+  have hc := this.1.2.2.1
+  revert hc
+  decide
+
+/-- IPv6Routing: full statement (FALSE), counterexample, proved part. -/
+def serialize_routing_buffer_independent_full : Prop :=
+  ∀ (r : Routing) (b1 b2 : SBuf), BufEq b1 b2 → SameBuf (serializeRouting r b1) (serializeRouting r b2)
+
+theorem serialize_routing_buffer_independent_partial (r : Routing) (b1 b2 : SBuf) (h : BufEq b1 b2)
+    (hc : RoutingConsistent r) : SameBuf (serializeRouting r b1) (serializeRouting r b2) := by
+  rw [serializeRouting_closed r b1 h.1 hc, serializeRouting_closed r b2 h.2.1 hc]
+  exact bufEq_prepend _ _ _ h
+
+def leakRouting : Routing :=
+  { base := { ExtBase.zero with nextHeader := 59 }, routingType := 0, segmentsLeft := 0, reserved := [],
+    sourceRoutingIPs := [] }
+
+theorem serialize_routing_buffer_independent_counterexample :
+    ¬ serialize_routing_buffer_independent_full := by
+  intro h
+  have hb : BufEq (new 0 0) dirtyBuf :=
+    ⟨inv_new' 0 0, inv_clear' _ (inv_step' _ _ (inv_new' 0 0)), by decide, by decide⟩
+  have := h leakRouting (new 0 0) dirtyBuf hb
+  have e1 : serializeRouting leakRouting (new 0 0) =
+      .ok (step (new 0 0) (.prepend [59, 0, 0, 0, 0, 0, 0, 0])) := by decide
+  have e2 : serializeRouting leakRouting dirtyBuf =
+      .ok (step dirtyBuf (.prepend [59, 0, 0, 0, 9, 9, 9, 9])) := by decide
+  rw [e1, e2] at this
+  have hc := this.2.2.1
+  revert hc
+  decide
+
+/-- Full statement for IPv6 (false through its hop-by-hop header only). -/
+def serialize_buffer_independent_full : Prop :=
+  ∀ (l : IPv6) (b1 b2 : SBuf) (fix : Bool), BufEq b1 b2 →
+    SameOut (serializeIPv6 l b1 fix) (serializeIPv6 l b2 fix)
+
+/-- IPv6 (with jumbogram handling and embedded hop-by-hop header): outcome, bytes and mutated layer
+    are the same for any two indistinguishable buffers, provided the hop-by-hop options are
+    gap-free (always with FixLengths, always for decoded layers). -/
+theorem serialize_buffer_independent_partial (l : IPv6) (b1 b2 : SBuf) (fix : Bool) (h : BufEq b1 b2)
+    (hc : l.Consistent fix) : SameOut (serializeIPv6 l b1 fix) (serializeIPv6 l b2 fix) :=
+  serializeIPv6_sameOut l b1 b2 fix h hc
+
+/-- Non-vacuity: a consistent layer with a hop-by-hop header and two different but
+    indistinguishable buffers. -/
+example : (({ IPv6.zero with hopByHop := some { base := ExtBase.zero, options := [pad1] } } : IPv6).Consistent true) ∧
+    BufEq (new 0 0) dirtyBuf ∧ new 0 0 ≠ dirtyBuf :=
+  ⟨⟨gapFree_of_fix _, by intro o ho; simp at ho; subst ho; decide⟩,
+   ⟨inv_new' 0 0, inv_clear' _ (inv_step' _ _ (inv_new' 0 0)), by decide, by decide⟩, by decide⟩
+
+/-! ## 3. serialize_idempotent -/
+
+/-- Extension headers: serialising the mutated layer again over the same payload is the same
+    computation, hence gives the same bytes and the same layer (a fixpoint after one call). -/
+theorem serialize_ext_idempotent (e e1 : TlvExt) (b b1 : SBuf) (fix : Bool) (h : Inv b)
+    (hs : serializeTlvExt e b fix = .ok (b1, e1)) : serializeTlvExt e1 b fix = .ok (b1, e1) := by
+  obtain ⟨out, -, -, heq⟩ := serializeTlvExt_eq e b fix h
+  have he1 : e1 = fixExt fix e := by
+    rw [heq] at hs
+    split at hs
+    · cases hs
+    · simp only [Res.ok.injEq, Prod.mk.injEq] at hs; exact hs.2.symm
+  rw [he1, serializeTlvExt_fixExt e b fix h, hs, he1]
+
+/- IPv6Routing / IPv6Fragment are not mutated by SerializeTo and their output is a function of
+   (layer, buffer) alone: repeating the call is literally the same computation. -/
+
 end Gp.C07.Ip6
